@@ -644,3 +644,17 @@ def walk_no_nested(node: ast.AST) -> Iterator[ast.AST]:
 
 def calls_in(node: ast.AST) -> list[ast.Call]:
     return [n for n in walk_no_nested(node) if isinstance(n, ast.Call)]
+
+
+def record_fields(prog, ci):
+    """Field names (declaration order) and defaults of a record class, or None if `ci` is not one."""
+    is_nt = any(norm(b).split(".")[-1] == "NamedTuple" for b in ci.node.bases)
+    is_dc = any(norm(d.func if isinstance(d, ast.Call) else d).split(".")[-1] == "dataclass" for d in ci.node.decorator_list)
+    if not (is_nt or is_dc) or "__init__" in ci.methods or "__new__" in ci.methods:
+        return None
+    out = []
+    for c in reversed(prog.mro_classes(ci)):
+        for st in c.node.body:
+            if isinstance(st, ast.AnnAssign) and isinstance(st.target, ast.Name) and "ClassVar" not in norm(st.annotation):
+                out = [x for x in out if x[0] != st.target.id] + [(st.target.id, st.value)]
+    return out
